@@ -288,7 +288,7 @@ func runCrash(t *testing.T, sc Scenario, crashes []CrashSpec, tno int, w *bufio.
 			}
 			q, err := queue.VerifPrepare(queue.VerifConfig{
 				Location: dir, Target: tgt, Bounce: bnc, MaxTries: crashMt, MaxParallelism: 1,
-				InitialRetryTime: retryDelay, RetryTimeScale: 1, PostInitDelay: 0,
+				InitialRetryTime: schedOf(sc.ID).init, RetryTimeScale: schedOf(sc.ID).scale, PostInitDelay: schedOf(sc.ID).pid,
 				Hostname: "mx.example.org", AutogenMsgDomain: "example.org",
 				Log: log.Logger{Out: log.NopOutput{}},
 			})
@@ -390,6 +390,26 @@ func runCrash(t *testing.T, sc Scenario, crashes []CrashSpec, tno int, w *bufio.
 		dir = ctl.SnapDir
 	}
 	return res
+}
+
+// retrySched is the retry schedule a run's queue is configured with. The spool design
+// (QueueDisk.tla) is independent of it - "attempted again after restart" has no clock in the model -
+// so it is a harness-only data dimension: every third scenario runs with the stock schedule of
+// NewQueue (15 min x 1.25^(n-1), 10 s after start-up), which the configuration cannot change, the
+// others with the flat one-minute schedule. The fake clock of the bubble makes both free; the
+// observation window per incarnation (crashMt+4 sleeps of 30 minutes) covers every delay the
+// documented formula can produce for up to crashMt attempts in either.
+type retrySched struct {
+	init  time.Duration
+	scale float64
+	pid   time.Duration
+}
+
+func schedOf(id int) retrySched {
+	if id%3 == 0 {
+		return retrySched{15 * time.Minute, 1.25, 10 * time.Second}
+	}
+	return retrySched{retryDelay, 1, 0}
 }
 
 func hasMeta(dir string) bool {
